@@ -215,29 +215,34 @@ def renderChar (c : Int) : String :=
   else if 32 ≤ c ∧ c < 127 then "'" ++ String.singleton (Char.ofNat c.toNat) ++ "'"
   else toString c
 
+/-- The field a chain shows: first entry of the innermost non-empty level (`none` = no field). -/
+def chainField (chain : List (List Nat)) : Option Nat := (chain.find? (!·.isEmpty)).bind List.head?
+
 def VInfo.shownField (i : VInfo) : Nat :=
-  if i.extra then 0 else match i.fields.find? (!·.isEmpty) with
-    | some (f :: _) => f
-    | _ => 0
+  if i.extra then 0 else (chainField i.fields).getD 0
+
+def fieldPrefix (lang : Lang) : Option Nat → String
+  | some f => lang.fieldNames.getD f "" ++ ": "
+  | none => ""
+
+def unexpectedChar (d : NodeData) : Int :=
+  if d.ext.startsWith "c" then intOf (d.ext.drop 1).toString else 0
 
 /-- Opening of a printed node: `(UNEXPECTED c`, `(MISSING name` or `(name`. -/
-def renderOpen (lang : Lang) (i : VInfo) (nKids : Nat) : String :=
+def renderOpen (lang : Lang) (i : VInfo) : String :=
   let name := (lang.symMeta i.sym).name
-  match i.unexpected with
-  | some c => if i.sym == symError && nKids == 0 && i.stop.bytes > i.start.bytes then "(UNEXPECTED " ++ renderChar c else "(" ++ name
-  | none =>
-    if i.missing then "(MISSING " ++ (if i.named || i.rawNamed then name else "\"" ++ name ++ "\"")
-    else "(" ++ name
+  if i.raw.data.symbol == symError && i.raw.kids.length == 0 && i.raw.data.size.bytes > 0 then
+    "(UNEXPECTED " ++ renderChar (unexpectedChar i.raw.data)
+  else if i.missing then "(MISSING " ++ (if i.named || i.rawNamed then name else "\"" ++ name ++ "\"")
+  else "(" ++ name
 
 mutual
   /-- A non-root node inside an S-expression: printed when named or MISSING (with its field),
   otherwise only its children are printed in its place. -/
   def renderInner (lang : Lang) : VTree → String
     | .mk i kids =>
-      if i.named || i.missing then
-        let f := i.shownField
-        " " ++ (if f != 0 then lang.fieldNames.getD f "" ++ ": " else "") ++
-          renderOpen lang i kids.length ++ renderList lang kids ++ ")"
+      if i.missing || i.named then
+        " " ++ fieldPrefix lang (chainField i.fields) ++ renderOpen lang i ++ renderList lang kids ++ ")"
       else renderList lang kids
   def renderList (lang : Lang) : List VTree → String
     | [] => ""
@@ -250,7 +255,7 @@ def render (lang : Lang) (t : VTree) (rootPrinted : Bool) : String :=
   match t with
   | .mk i kids =>
     let name := (lang.symMeta i.sym).name
-    if rootPrinted then renderOpen lang i kids.length ++ renderList lang kids ++ ")"
+    if rootPrinted then renderOpen lang i ++ renderList lang kids ++ ")"
     else if i.rawKids > 0 then "(" ++ name ++ renderList lang kids
     else if i.rawNamed then "(" ++ name ++ ")"
     else "(\"" ++ name ++ "\")"
